@@ -15,6 +15,7 @@ type modelFn func(g *gen, st *state, c *ssa.CallCommon, args []string, instr ssa
 type modelEffect struct {
 	strong    []string
 	allocates bool
+	nonDoc    bool // may write anything but document nodes and lists
 }
 
 var models map[string]modelFn
@@ -221,6 +222,24 @@ func init() {
 		return []string{n}
 	})
 
+	// ---- sort: calls back into Len/Less/Swap of the argument; assumed to permute the argument's elements and
+	// to leave every document node alone (the yq implementations of Less are verified separately)
+	sortModel := func(g *gen, st *state, c *ssa.CallCommon, a []string, in ssa.Instruction) []string {
+		g.newEpoch(st, func(name, r string) string {
+			if g.isDocHeap(name) || name == listLenHeap || name == listValHeap {
+				if r == "" {
+					return "true"
+				}
+				return "weak"
+			}
+			return "false"
+		}, true)
+		return nil
+	}
+	def("sort.Stable", modelEffect{allocates: true, nonDoc: true}, sortModel)
+	def("sort.Sort", modelEffect{allocates: true, nonDoc: true}, sortModel)
+	def("sort.Strings", modelEffect{allocates: true, nonDoc: true}, sortModel)
+
 	// ---- time -----------------------------------------------------------------------------------------
 	def("(time.Time).Equal", none, func(g *gen, st *state, c *ssa.CallCommon, a []string, in ssa.Instruction) []string {
 		return []string{sEq(app("instant", a[0]), app("instant", a[1]))}
@@ -338,7 +357,7 @@ func (g *gen) needSprintv() {
 	g.sorts.boxSorts["String"] = true
 	g.vc.Decls = append(g.vc.Decls, "(declare-fun sprintv (Iface) String)")
 	g.vc.Asserts = append(g.vc.Asserts,
-		fmt.Sprintf("(forall ((i Int)) (! (= (sprintv (mk-iface %s i)) (itoa i)) :pattern ((sprintv (mk-iface %s i)))))", it, it),
-		fmt.Sprintf("(forall ((s String)) (! (= (sprintv (mk-iface %s (box.String s))) s) :pattern ((sprintv (mk-iface %s (box.String s))))))", st, st),
+		fmt.Sprintf("(forall ((x Iface)) (! (and (=> (= (i.typ x) %s) (= (sprintv x) (itoa (i.val x)))) (=> (= (i.typ x) %s) (= (sprintv x) (unbox.String (i.val x))))) :pattern ((sprintv x))))", it, st),
+		"(forall ((i Int)) (! (= (box.String (unbox.String i)) i) :pattern ((unbox.String i))))",
 	)
 }
